@@ -94,6 +94,8 @@ def branch(op, mres, tag):
     sv = "valid" if t["valid"] else "invalid"
     if kind == "wd":
         return "wd:" + ("zip64" if "504b0606" in mres else "plain")
+    if kind == "many":
+        return "many:" + ("zip64" if int(op.split(" ")[2]) + int(op.split(" ")[3]) >= 65535 else "plain")
     if kind == "read":
         return "read:%s:%s:%s" % (" ".join(f[1:3]) if f[1] != "ok" else "ok", sv, ",".join(sorted(t["flags"] - {"contig"})))
     return "rewrite:%s:%s" % (f[0] if f[0] == "ok" else " ".join(f[:2]), sv)
@@ -106,6 +108,15 @@ def evaluate(op, il, mres, tag, origin, pyline=None):
     kind = op.split(" ")[1]
     out = []
     if kind == "wd":
+        return out
+    if kind == "many":
+        kv = dict(x.split("=", 1) for x in core.split(" ")[1:] if "=" in x)
+        if not core.startswith("ok ") or kv.get("go") != "ok":
+            out.append(("Relic.Props.C17.write_read_roundtrip_partial", "many-output-invalid:" + core[:60], "go=ok",
+                        "an archive relic wrote (%s members + %s added) is not read back by archive/zip" % tuple(op.split(" ")[2:4])))
+        elif kv.get("relic") != "ok":
+            out.append(("Relic.Props.C17.write_read_roundtrip_partial", "many-relic-rereads:" + kv.get("relic", "?")[:60], "relic=ok",
+                        "relic cannot read back an archive it wrote itself (%s members + %s added)" % tuple(op.split(" ")[2:4])))
         return out
     if kind == "rewrite":
         if t["valid"] and "contig" in t["flags"] and not core.startswith("ok "):
@@ -263,6 +274,13 @@ def run(ctx):
             if core != mres:
                 findings.append(R.Finding("broken-tie", TIE, TIE_THEOREM, op, mres, core,
                                           "model and implementation disagree (round %d)" % rnd))
+                # search: the property predicates need only the specification-side tag and the implementation's line
+                try:
+                    for thm, cause, expected, note in evaluate(op, il, mres, tag, origins.get(op), py.get(op)):
+                        if not thm.startswith("Relic.SpecZip") and not any(known_match(k, cause, t["flags"], set()) for k in known):
+                            findings.append(R.Finding("counterexample", TIE, thm, op, expected, cause + " :: " + core[:2000], note))
+                except (IndexError, KeyError, ValueError):
+                    pass
                 continue
             oflags = origin["flags"] if origin else set()
             for thm, cause, expected, note in evaluate(op, il, mres, tag, origin, py.get(op)):
